@@ -270,34 +270,64 @@ def main(tier, replay=None):
 
     states = trans = 0
     cmds = []
-    cases = []
     exhaustive = True
     model_violation = None
     sd = C.seed()
+    evals = 0
+    nontriv = set()
+    samples = []
+    ncases = [0]
+
+    def consume(res):
+        nonlocal evals
+        for x in res:
+            if x[0] == "bad":
+                rep.disagree(x[1], key=None)
+            else:
+                evals += x[1]
+                if x[2] >= 2:
+                    nontriv.add(hash(x[3]))
+                if len(samples) < 5 and x[2] >= 3 and (len(samples) < 2 or "(" in x[3]):
+                    samples.append(x[3])
+
     for kind, name, num, depth, what in runs:
+        # cases are replayed in batches while TLC runs (bounded memory: the thorough tier explores millions of chains)
+        seen = set()
+        buf = []
+        count = [0]
+
+        def flush():
+            cases, buf[:] = list(buf), []
+            if cases:
+                consume(C.proc_map(hp, work, cases, chunk=400))
+
+        def on_case(o, kind=kind):
+            key = hash(repr(o["chain"]))
+            if key in seen:
+                return
+            seen.add(key)
+            i = count[0]
+            count[0] += 1
+            if kind == "sim":
+                buf.append((o["chain"], o["tree"], False, sd * 1000003 + i, False))
+                buf.append((o["chain"], o["tree"], True, sd * 1000003 + i, False))
+            else:
+                buf.append((o["chain"], o["tree"], False, sd * 1000003 + i, True))
+            if len(buf) >= 40000:
+                flush()
+
         r = C.run_tlc("MC_Precedence", name, workers=8, simulate=num, depth=depth, gendir=gd,
-                      timeout=3000, heap="8g")
+                      timeout=3000, heap="8g", on_replay=on_case)
         cmds.append(r.cmd)
         if r.violation:
             model_violation = (r.violation, what, r.errtext[:3000])
             break
         C.require_tlc_ok(r, what)
+        flush()
         states += r.distinct or r.generated
         trans += r.generated
-        C.log("[c02] %s: %d states, %d cases, %.0fs" % (what, r.distinct or r.generated, len(r.replays), r.wall))
-        seen = set()
-        for i, o in enumerate(r.replays):
-            key = repr(o["chain"])
-            if key in seen:
-                continue
-            seen.add(key)
-            if kind == "sim":
-                exhaustive = exhaustive  # the MC runs stay exhaustive; sim adds samples
-                cases.append((o["chain"], o["tree"], False, sd * 1000003 + i, False))
-                cases.append((o["chain"], o["tree"], True, sd * 1000003 + i, False))
-            else:
-                cases.append((o["chain"], o["tree"], False, sd * 1000003 + i, True))
-        r.replays = []
+        ncases[0] += count[0]
+        C.log("[c02] %s: %d states, %d cases, %.0fs" % (what, r.distinct or r.generated, count[0], r.wall))
 
     if model_violation:
         # DESIGN §3.7(4): a model-internal disagreement is not by itself a verdict.
@@ -305,19 +335,6 @@ def main(tier, replay=None):
                           "published table disagree in the model; inspect before trusting replay.\n%s"
                           % model_violation)
 
-    res = C.proc_map(hp, work, cases, chunk=400)
-    evals = 0
-    nontriv = set()
-    samples = []
-    for x in res:
-        if x[0] == "bad":
-            rep.disagree(x[1], key=None)
-        else:
-            evals += x[1]
-            if x[2] >= 2:
-                nontriv.add(x[3])
-            if len(samples) < 5 and x[2] >= 3 and (len(samples) < 2 or "(" in x[3]):
-                samples.append(x[3])
     code = rep.finish()
     C.write_evidence(PID, tier, "model_checking", {
         "states": states, "transitions": trans,
